@@ -7,6 +7,7 @@ disjunction over the member ranges; equal to `VC.allows` for every non-union con
 -/
 import PoetryVerif.Proofs.VRangeOps
 import PoetryVerif.Proofs.VRangeDiff
+import PoetryVerif.Proofs.VRangeWalk
 
 set_option linter.unusedSimpArgs false
 set_option linter.unusedVariables false
@@ -243,6 +244,54 @@ theorem range_minus_version_exact_partial (r : VRange) (v : Version) (hr : r.WF)
     ∀ p, p.wf = true → Regular (r.bounds ++ (RC.ver v).bounds) p →
       res.allowsPlain p = (r.allows p && !v.allows p) :=
   RC.rngDifferenceVer_exact r v hr htr hv hvreg res h
+
+/-! ## union level: the merge walk of `VersionUnion.intersect` -/
+
+/-- **the merge walk of `VersionUnion.intersect` is total and exact.**  For two lists of well-formed members,
+each sorted (every member strictly below the later ones) and without a "version / range starting at a local
+build of it" pair, the walk returns with the fuel the model gives it, and the parts it collects admit a regular
+probe exactly when a member of each list does. -/
+theorem union_intersect_walk_exact (ours theirs : List RC)
+    (ho : ∀ c ∈ ours, c.WF) (ht : ∀ c ∈ theirs, c.WF) (hso : SortedRC ours) (hst : SortedRC theirs)
+    (hnl : RC.NoLocalMin ours theirs) :
+    ∃ parts, VC.unionIntersectLoop (ours.length + theirs.length + 1) ours theirs [] = .ok parts ∧
+      ∀ p, p.wf = true → Regular (boundsOf ours ++ boundsOf theirs) p →
+        (anyPart parts p ↔ (anyAllows ours p = true ∧ anyAllows theirs p = true)) := by
+  obtain ⟨parts, h, hsem⟩ := unionIntersectLoop_sem (ours.length + theirs.length + 1) ours theirs []
+    (by omega) ho ht hso hst hnl
+  refine ⟨parts, h, fun p hp hreg => ?_⟩
+  rw [hsem p hp hreg]
+  simp [anyPart]
+
+example : SortedRC [.rng exA, .rng ⟨some (Version.mk' 0 [3] none none none none), none, true, false⟩] := by
+  simp only [SortedRC, List.pairwise_cons, List.mem_singleton, forall_eq, List.not_mem_nil, false_implies,
+    implies_true, List.Pairwise.nil, and_true]
+  decide
+
+/-- **union ∩ constraint is exact whenever `VersionUnion.of` accepts the collected parts.**  `hparts`: the
+parts are members `VersionUnion.of` is proved for (`Good`) over bounds of the operands. -/
+theorem union_intersect_exact_partial (rs : List RC) (b : VC)
+    (ho : ∀ c ∈ rs, c.WF) (ht : ∀ c ∈ b.flatten, c.WF) (hso : SortedRC rs) (hst : SortedRC b.flatten)
+    (hnl : RC.NoLocalMin rs b.flatten) (res : VC) (h : VC.intersect (.union rs) b = .ok res)
+    (hparts : ∀ parts, VC.unionIntersectLoop (rs.length + b.flatten.length + 1) rs b.flatten [] = .ok parts →
+      Good (parts.flatMap VC.flatten) ∧
+      ∀ e ∈ boundsOf (parts.flatMap VC.flatten), e ∈ boundsOf rs ++ boundsOf b.flatten) :
+    ∀ p, p.wf = true → Regular (boundsOf rs ++ boundsOf b.flatten) p →
+      res.allowsPlain p = ((VC.union rs).allowsPlain p && b.allowsPlain p) := by
+  intro p hp hreg
+  obtain ⟨parts, hl, hsem⟩ := union_intersect_walk_exact rs b.flatten ho ht hso hst hnl
+  obtain ⟨hg, hb⟩ := hparts parts hl
+  simp only [VC.intersect, hl, bind, Except.bind, VC.unionOf] at h
+  obtain ⟨_, _, g3⟩ := unionOfFlat_sem _ res h hg
+  rw [g3 p hp (hreg.mono hb)]
+  apply bool_eq_of_iff
+  have e1 : anyAllows (parts.flatMap VC.flatten) p = true ↔ anyPart parts p := by
+    simp only [anyAllows, anyPart, VC.allowsPlain, List.any_eq_true, List.mem_flatMap]
+    constructor
+    · rintro ⟨c, ⟨q, hq, hc⟩, hcp⟩; exact ⟨q, hq, c, hc, hcp⟩
+    · rintro ⟨q, hq, c, hc, hcp⟩; exact ⟨c, ⟨q, hq, hc⟩, hcp⟩
+  rw [e1, hsem p hp hreg, Bool.and_eq_true]
+  rfl
 
 /-! ## the property at full strength -/
 
